@@ -1,6 +1,7 @@
 package mem
 
 import (
+	"container/list"
 	"fmt"
 	"io"
 	"sort"
@@ -16,11 +17,15 @@ import (
 // Store implements an in-memory message store.
 type Store struct {
 	sync.Mutex
-	boxes    map[string]*mbox
-	cap      int           // Per-mailbox message cap.
-	incoming chan *msgDone // New messages for size enforcer.
-	remove   chan *msgDone // Remove deleted messages from size enforcer.
-	extHost  *extension.Host
+	boxes   map[string]*mbox
+	cap     int // Per-mailbox message cap.
+	extHost *extension.Host
+
+	// Store size limit, see maxsize.go.
+	sizeMu  sync.Mutex
+	maxSize int64      // Limit in bytes, 0 disables.
+	curSize int64      // Bytes accounted for.
+	all     *list.List // Accounted messages, oldest first.
 }
 
 type mbox struct {
@@ -46,10 +51,9 @@ func New(cfg config.Storage, extHost *extension.Host) (storage.Store, error) {
 			return nil, fmt.Errorf("failed to parse maxkb: %v", err)
 		}
 		if maxKB > 0 {
-			// Setup enforcer.
-			s.incoming = make(chan *msgDone)
-			s.remove = make(chan *msgDone)
-			go s.maxSizeEnforcer(maxKB * 1024)
+			// Setup size limit.
+			s.maxSize = maxKB * 1024
+			s.all = newAccount()
 		}
 	}
 	return s, nil
@@ -74,7 +78,7 @@ func (s *Store) AddMessage(message storage.Message) (id string, err error) {
 		date:    message.Date(),
 		subject: message.Subject(),
 	}
-	var capped []*Message
+	var capped, oversize []*Message
 	s.withMailbox(message.Mailbox(), true, func(mb *mbox) {
 		// Generate message ID.
 		mb.last++
@@ -90,19 +94,22 @@ func (s *Store) AddMessage(message storage.Message) (id string, err error) {
 				key := strconv.Itoa(mb.first)
 				if old, ok := mb.messages[key]; ok {
 					delete(mb.messages, key)
+					s.unaccount(old)
 					capped = append(capped, old)
 				}
 				mb.first++
 			}
 		}
+		oversize = s.account(m)
 	})
-	// Messages evicted by the cap leave the size accounting and are announced like any other
-	// removal.
+	// Messages evicted by the cap are announced like any other removal.
 	for _, old := range capped {
-		s.enforcerRemove(old)
 		s.emitDeleted(old)
 	}
-	s.enforcerDeliver(m)
+	// Enforce the store size limit: remove the oldest messages, store-wide.
+	for _, old := range oversize {
+		s.removeMessage(old.mailbox, old.id)
+	}
 	return id, err
 }
 
@@ -168,14 +175,10 @@ func (s *Store) PurgeMessages(mailbox string) error {
 	s.withMailbox(mailbox, true, func(mb *mbox) {
 		messages = mb.messages
 		mb.messages = make(map[string]*Message)
-	})
-
-	// Process size/quota.
-	if s.remove != nil {
 		for _, m := range messages {
-			s.enforcerRemove(m)
+			s.unaccount(m)
 		}
-	}
+	})
 
 	// Emit delete events.
 	for _, m := range messages {
@@ -185,14 +188,14 @@ func (s *Store) PurgeMessages(mailbox string) error {
 	return nil
 }
 
-// removeMessage deletes a single message without notifying the size enforcer.  Returns the message
-// that was removed.
+// removeMessage deletes a single message.  Returns the message that was removed.
 func (s *Store) removeMessage(mailbox, id string) *Message {
 	var m *Message
 	s.withMailbox(mailbox, true, func(mb *mbox) {
 		m = mb.messages[id]
 		if m != nil {
 			delete(mb.messages, id)
+			s.unaccount(m)
 		}
 	})
 
@@ -205,11 +208,9 @@ func (s *Store) removeMessage(mailbox, id string) *Message {
 
 // RemoveMessage deletes a single message.
 func (s *Store) RemoveMessage(mailbox, id string) error {
-	m := s.removeMessage(mailbox, id)
-	if m == nil {
+	if s.removeMessage(mailbox, id) == nil {
 		return storage.ErrNotExist
 	}
-	s.enforcerRemove(m)
 	return nil
 }
 
